@@ -116,6 +116,7 @@ class S(diff.DiffOperator):
             # apply (not inplace)
             prune = sm.options.get("prune")
             prune = self.prune if prune is None else prune
+            prune = 1e-8 if prune is True else prune  # a flag, not a tolerance
             opts = {
                 "prune": bool(prune),
                 "tol": prune,
@@ -148,6 +149,7 @@ class S(diff.DiffOperator):
             shift = shift * ktvalue
             prune = sm.options.get("prune")
             prune = self.prune if prune is None else prune
+            prune = 1e-8 if prune is True else prune  # a flag, not a tolerance
             if method == "shift-merge":
                 opts = {"prune": bool(prune), "tol": prune, "grid": kgrid}
                 states, wavenums = shiftmerge(sm.states, coords, shift, **opts)
